@@ -67,6 +67,7 @@ TREE = {
     'other/sub/c.txt': 'DECOY other/sub/c.txt',
     'sub/c.txt': 'DECOY parent sub/c.txt',
 }
+BIG_SIZES = [65535, 65537, 1048576, 1048577, 2 * 1048576 + 5]
 _state: Dict[str, Any] = {}
 KEPT = b'HTTP/1.1 200 OK\r\nContent-Length: 4\r\nX-Route: keep\r\n\r\nkept'
 
@@ -92,10 +93,18 @@ def begin(tier: str) -> None:
     root = os.path.join(base, 'public')
     with open(os.path.join(root, 'real.gz'), 'wb') as f:
         f.write(gzip.compress(b'the payload inside a real gzip file, which is NOT what the file on disk contains', mtime=0))
+    # sizes around the powers of two where buffers, chunking and compression policies change
+    brng = random.Random('c13big')
+    big = []
+    for n in BIG_SIZES:
+        rel = 'public/big-%d.dat' % n
+        with open(os.path.join(base, rel), 'wb') as f:
+            f.write(bytes(brng.getrandbits(8) for _ in range(4096)) * (n // 4096) + b'z' * (n % 4096))
+        big.append(rel)
     _state.update(base=base, root=root)
     _state['inside'] = {}
     _state['decoys'] = {}
-    for rel in list(TREE) + ['public/real.gz']:
+    for rel in list(TREE) + ['public/real.gz'] + big:
         full = os.path.join(base, rel)
         data = open(full, 'rb').read()
         (_state['inside'] if rel.startswith('public/') else _state['decoys'])[full] = data
@@ -321,6 +330,10 @@ def run_case(case: Dict[str, Any]) -> Dict[str, Any]:
         obs['open_events'] = obs.get('open_events', 0) + len(r['opened'])
         if cl != 'plain':
             nontriv += 1
+        if not _inside_root(path) and (b'//' in path or b'/./' in path) and b'..' in path and b'%' not in path:
+            obs['climbs_out_with_noise'] = obs.get('climbs_out_with_noise', 0) + 1
+        if code == '200' and body is not None and len(body) >= 65535:
+            obs['big_files_served'] = obs.get('big_files_served', 0) + 1
         for (what, d) in judge(path, r):
             key = '%s|%s' % (what, cl)
             viol.setdefault(key, {'key': key, 'detail': {'path': path, 'diff': d, 'status': code}})
@@ -389,6 +402,12 @@ def cases(tier: str, seed: int):
     yield emit(['/sub/../a.txt', '/./a.txt', '/sub/./c.txt', '/sub/deep/../c.txt', '/public/../a.txt', '/sub/../sub/../index.html',
                 '/sub/deep/../../big.bin', '/public/./x.txt', '/sub/deep/./d.txt', '/public/../public/x.txt', '/a.txt?../x',
                 '/sub/../..hidden', '/sub/../%41.txt', '/public/../file.with.dots'], queries=40)
+    yield emit(['/big-%d.dat' % n for n in BIG_SIZES], queries=2, positions=['routed-first', 'after-route'])
+    # climbs out of the root written the ways path resolvers disagree on: repeated separators and '.' segments (which the OS
+    # ignores) in front of, between and after the '..' segments, from every depth of the tree
+    srng = random.Random('c13s:%d' % seed)
+    for _ in range(30 if tier == 'quick' else 600):
+        yield emit([structured_climb(srng) for _ in range(40)])
     for n in range(1, depth + 1):
         for combo in itertools.product(toks, repeat=n):
             p = '/' + ''.join(t if t in ('/', '//') else t for t in _join(combo))
@@ -424,6 +443,21 @@ def cases(tier: str, seed: int):
         yield emit(paths, queries=4 if rng.random() < 0.2 else 0)
 
 
+def structured_climb(rng: random.Random) -> str:
+    down = rng.choice([[], [], ['sub'], ['sub', 'deep'], ['public'], ['nope'], ['dashboard'], ['sub', 'nope']])
+    ups = len(down) + rng.choice([0, 1, 1, 1, 2])
+    target = rng.choice(['secret.txt', 'a.txt', 'public-secret/x.txt', 'public-secret/a.txt', 'sub/c.txt', 'other/sub/c.txt', 'public/a.txt'])
+    segs = list(down) + ['..'] * ups + target.split('/')
+    out = ''
+    for k, sg in enumerate(segs):
+        # noise the OS collapses; a leading '//' would make the target scheme-relative, so position 0 keeps one slash
+        sep = rng.choice(['/', '/', '/', '//', '/./', '/.//', '//./', '///', '/././'])
+        if k == 0 and sep.startswith('//'):
+            sep = '/.' + sep
+        out += sep + sg
+    return out
+
+
 def _join(combo: Any) -> List[str]:
     """Tokens are separated by '/' unless one of them already is a separator token."""
     out: List[str] = []
@@ -443,6 +477,7 @@ def _join(combo: Any) -> List[str]:
 def floors(tier: str) -> Dict[str, int]:
     return {'paths': 3000, 'status:200': 40, 'status:404': 1000, 'nontrivial_paths': 1000, 'open_events': 1000,
             'query_variants': 1500, 'distinct:path_classes': 10,
+            'climbs_out_with_noise': 300, 'big_files_served': 5,
             'pos:routed-first': 800, 'pos:after-route': 800, 'pos:pipelined': 800, 'pos:dashboard': 800, 'rewrite_rounds': 40}
 
 
